@@ -4,7 +4,7 @@ import argparse
 import os
 import sys
 
-if os.environ.get("PYTHONHASHSEED") != "0":
+if os.environ.get("PYTHONHASHSEED") != "0" and not os.environ.get("VERIF_KEEP_HASHSEED"):
     os.environ["PYTHONHASHSEED"] = "0"
     os.execv(sys.executable, [sys.executable] + sys.argv)
 
@@ -14,6 +14,7 @@ sys.path.insert(0, os.path.dirname(os.path.abspath(__file__)))
 def main():
     parser = argparse.ArgumentParser()
     parser.add_argument("property")
+    parser.add_argument("extra", nargs="*")
     parser.add_argument("--tier", default=os.environ.get("VERIF_TIER") or "quick",
                         choices=("quick", "thorough"))
     parser.add_argument("--seed", type=int, default=int(os.environ.get("VERIF_SEED") or 0))
@@ -25,6 +26,10 @@ def main():
     if args.property == "selftest":
         from sim import selftest
         return selftest.main(args.seed)
+    if args.property == "selftest-worker":
+        from sim import selftest
+        pid, seeds, n = args.extra
+        return selftest.worker(pid, args.tier, [int(x) for x in seeds.split(",")], int(n))
     prop = PROPS[args.property]
     if args.replay:
         return runner.replay_file(prop, args.replay)
